@@ -88,9 +88,7 @@ def run(tier: str) -> int:
         out = wd / "cases.json"
         cfg = cfg_text("Spec", constants={"Contents": {"c1", "c2"}, "Stride": 1},
                        invariants=["EqualIffSame", "RawTargetIrrelevant"], postcondition="Export")
-        cfg = cfg.replace("CONSTANTS\n", "CONSTANTS\n  RawTargets <- RT\n  Names1 <- N1\n  Names2 <- " + ("N2" if quick else "N2big") + "\n")
-        if not quick:
-            cfg = cfg.replace("Stride = 1", "Stride = 3")
+        cfg = cfg.replace("CONSTANTS\n", "CONSTANTS\n  RawTargets <- RT\n  Names1 <- N1\n  Names2 <- N2\n")
         r = run_tlc("MC_DirHash", cfg, wd, env={"OUT_FILE": str(out)}, timeout=1800)
         rep.add_tlc("hash_tree_model", r, exhaustive=True)
         if r.violated:
